@@ -440,6 +440,111 @@ class MinIriFold(Ob):
         return None if result == want else "min IRI of %r is %r, expected %r" % (a["iris"], result, want)
 
 
+RDF_TYPE = "http://www.w3.org/1999/02/22-rdf-syntax-ns#type"
+SM_NS = {"http://ex.org/": "ex", "http://ex.org/a/": "exa", SHNS: "sh"}
+
+
+def c_local_noat(c):
+    return c_local(c)
+
+
+class ShapeMapItem(Ob):
+    """FixedShapeMapParser._parse_shape_map_item_from_line: node selectors denote exactly that node; FOCUS selectors generate the
+    single-variable query whose triple pattern has ?f in the FOCUS position, ?x for '_', rdf:type for 'a' and the full IRI otherwise;
+    labels resolve to the full IRI."""
+    functions = ["FixedShapeMapParser._parse_shape_map_item_from_line/_remove_trailing_comma", "NodeSelectorParser.parse_node_selector/_parse_unprefixed_node_selector/"
+                 "_parse_prefixed_node_selector/_parse_focus_expression/_parse_subj_obj_focus_expression/_parse_uri_focus_expression/_turn_focus_exp_tokens_into_query/"
+                 "_unprefix_uri/_namespaces_to_string/_parse_variable_in_single_variable_query", "ShapeMapLabelParser.parse_shape_map_label/_parse_prefixed_label",
+                 "shexer.model.node_selector.NodeSelectorNoSparql/NodeSelectorSparql", "shexer.utils.dict.reverse_keys_and_values"]
+
+    def __init__(self, selector, label, k, comma=False, spaces=" "):
+        self.selector, self.label, self.k, self.comma, self.spaces = selector, label, k, comma, spaces
+        self.name = "shape_map_item/%s/%s/k=%d%s%s" % ("+".join(selector), label, k, "/comma" if comma else "", "/2sp" if spaces != " " else "")
+
+    def _iri(self, ex, tag, style):
+        """-> (text in the shape map, full IRI)"""
+        cs = free(ex, tag, self.k, c_local)
+        if style == "full":
+            return "<" + sstr(EXNS, cs) + ">", sstr(EXNS, cs)
+        if style == "prefixed":
+            return sstr("ex:", cs), sstr(EXNS, cs)
+        if style == "nested":
+            return sstr("exa:", cs), sstr("http://ex.org/a/", cs)
+        raise HarnessError(style)
+
+    def build(self, ex):
+        kind = self.selector[0]
+        exp = {}
+        if kind == "node":
+            text, full = self._iri(ex, "n", self.selector[1])
+            exp = dict(kind="node", node=full)
+        else:
+            pos, pstyle, ostyle = self.selector[1:]
+            if pstyle == "a":
+                ptext, pfull = "a", RDF_TYPE
+            else:
+                ptext, pfull = self._iri(ex, "p", pstyle)
+            if ostyle == "_":
+                otext, ofull = "_", None
+            else:
+                otext, ofull = self._iri(ex, "o", ostyle)
+            sp = self.spaces
+            text = ("{FOCUS" + sp + ptext + sp + otext + "}") if pos == "subject" else ("{" + otext + sp + ptext + sp + "FOCUS}")
+            exp = dict(kind="focus", pos=pos, pred=pfull, other=ofull)
+        if self.label == "full":
+            ltext, lfull = "<" + sstr(SHNS, free(ex, "L", self.k, c_local)) + ">", None
+            exp["label"] = ltext
+        else:
+            cs = free(ex, "L", self.k, c_local)
+            ltext = sstr("sh:", cs)
+            exp["label"] = "%" + sstr(SHNS, cs)
+        line = text + "@" + ltext + ("," if self.comma else "")
+        return dict(line=line, exp=exp)
+
+    def call(self, a):
+        from shexer.io.shape_map.shape_map_parser import FixedShapeMapParser
+        item = FixedShapeMapParser(namespaces_prefix_dict=dict(SM_NS), sgraph=None)._parse_shape_map_item_from_line(a["line"])
+        sel = item.node_selector
+        out = dict(label=item.shape_label, cls=type(sel).__name__)
+        if out["cls"] == "NodeSelectorNoSparql":
+            out["nodes"] = list(sel.get_target_nodes())
+        else:
+            out["query"] = sel.sparql_query_selector
+            out["var"] = sel._id_variable_query
+        return out
+
+    def _expected_query(self, exp):
+        header = "".join("PREFIX %s: <%s>\n" % (p, ns) for ns, p in SM_NS.items())
+        other = "?x" if exp["other"] is None else "<" + exp["other"] + ">"
+        s_, o_ = ("?f", other) if exp["pos"] == "subject" else (other, "?f")
+        return header + "SELECT ?f WHERE {" + s_ + " <" + exp["pred"] + "> " + o_ + " . } "
+
+    def bad(self, a, result):
+        exp = a["exp"]
+        conds = [eq(result["label"], exp["label"])]
+        if exp["kind"] == "node":
+            conds.append(result["cls"] == "NodeSelectorNoSparql" and len(result.get("nodes", [])) == 1)
+            if conds[-1]:
+                conds.append(eq(result["nodes"][0], exp["node"]))
+        else:
+            conds.append(result["cls"] == "NodeSelectorSparql")
+            if conds[-1]:
+                conds.append(eq(result["query"], self._expected_query(exp)))
+                conds.append(eq(result["var"], "f"))
+        return neg(_and(conds))
+
+    def check(self, a, result):
+        exp = a["exp"]
+        if result["label"] != exp["label"]:
+            return "label %r, expected %r" % (result["label"], exp["label"])
+        if exp["kind"] == "node":
+            return None if result.get("nodes") == [exp["node"]] else "selector %r denotes %r, expected [%r]" % (a["line"], result.get("nodes"), exp["node"])
+        want = self._expected_query(exp)
+        if result.get("query") != want or result.get("var") != "f":
+            return "selector %r generates %r (variable %r), expected %r" % (a["line"], result.get("query"), result.get("var"), want)
+        return None
+
+
 def obligations(prop, tier):
     q = tier == "quick"
     out = []
@@ -470,6 +575,18 @@ def obligations(prop, tier):
         for style in ("full", "brackets", "prefixed", "prefixed-nested"):
             for k in ((1, 2) if q else (1, 2, 3, 4)):
                 out.append(TargetClassName(style, k))
+        ks = (1,) if q else (1, 2, 3)
+        for k in ks:
+            for label in ("full", "prefixed"):
+                for style in ("full", "prefixed", "nested"):
+                    out.append(ShapeMapItem(("node", style), label, k))
+                out.append(ShapeMapItem(("node", "full"), label, k, comma=True))
+                for pos in ("subject", "object"):
+                    for pstyle in ("a", "full", "prefixed"):
+                        for ostyle in ("_", "full", "prefixed", "nested"):
+                            out.append(ShapeMapItem(("focus", pos, pstyle, ostyle), label, k))
+                out.append(ShapeMapItem(("focus", "subject", "prefixed", "prefixed"), label, k, spaces="  "))
+                out.append(ShapeMapItem(("focus", "object", "a", "full"), label, k, comma=True))
     if prop == "C17":
         for shared in ("http://ex.org/", "http://ex.org/a", ""):
             for k1, k2 in (((1, 1), (2, 1), (2, 2)) if q else ((1, 1), (2, 1), (2, 2), (3, 2), (3, 3), (4, 2))):
